@@ -340,6 +340,9 @@ def execute(script):
                             receive_mod.main()
                     except Crash:
                         crashed = True
+                    except Exception as e:
+                        # the script itself fails (e.g. the wallet it finds does not load)
+                        crashed = 'failed: %s' % type(e).__name__
                     finally:
                         sys.argv = argv
                         fs.crash_at = None
@@ -359,7 +362,8 @@ def execute(script):
                     # the next caller
                     shown2, crashed2, _ = run_script(None)
                     if crashed2 or len(shown2) != 1:
-                        res.violate(PROP, 'C15/reload-fails-after-crash', 'the receive script does not complete after a crash at boundary %r' % (pt,))
+                        res.violate(PROP, 'C15/reload-fails-after-crash', 'the receive script does not complete after a crash at boundary %r of '
+                                    'the previous run\'s save (%s)' % (pt, crashed2 or 'no address shown'))
                         break
                     if unused_in_file >= 2 and shown1 and shown1[0] == shown2[0]:
                         res.violate(PROP, 'C15/key-handed-out-twice',
